@@ -63,9 +63,12 @@ claim("C12", "other",
       "Partial: exact-sum conservation of the functional (select-based) renormalize for list lengths 2..5 (thorough: 2..7), fast and safe modes, in every case split, by interpreting the traced expression DAG in an affine-equality domain (recognised 2Sum/Fast2Sum pairs are exact, other rounded operations are fresh atoms, `e == 0` adds a linear constraint, integer bookkeeping of nztopk evaluated per case); maximal-size tables against the finfo formula. Not decided: non-overlap/ordering, two-pass claim, product/square error bounds, eager variant.",
       "trusted: package tracer as front end; 2Sum/Fast2Sum exactness absent overflow; fast mode under its documented magnitude-ordering precondition",
       "abstract interpretation of the expression IR in an affine-equality (Karr-style) domain with case splitting", "DESIGN.md §3/C12")
+claim("C14", "other",
+      "Thin: structural clauses of the ULP metric decided on the source of utils.diff_ulp/ulp: the scalar branch is invariant under exchanging its arguments (canonical form modulo commutativity and the |a-b| idiom); complex distance is max over paired components; sequence branches pair positionally and forward both options; signs are taken before abs() with sign(0)=0 and integer views of absolute values; out-of-range marker 2**bits; ulp(x)=ldexp(1, frexp exponent + negep). That the value equals the number of representable steps, chain additivity and the flush remapping are numeric and not decided.",
+      "only the named structural clauses are decided; same-type arguments assumed (x.dtype and y.dtype identified)",
+      "AST canonicalisation and swap-invariance check; call-site argument pairing", "DESIGN.md §3/C14")
 for p, why in dict(
     C01="bounds ULP error of libm-based formulas over all complex inputs: a numeric quantity no static argument in reach can bound",
     C02="same on the real line; float32 exhaustion is execution, not static analysis",
-    C14="metric laws of integer arithmetic on runtime bit patterns; nothing structural beyond a width table",
 ).items():
     na(p, why)
